@@ -359,7 +359,59 @@ def rule_prefix_widths(model):
     return r
 
 
-RULES = [rule_eol, rule_who_skips, rule_provenance, rule_prefix_widths]
+def rule_tag_identity(model):
+    r = RuleResult('C01.R5', 'the tag text a tag reader returns is the '
+                   'matched text itself (the parser advances by its '
+                   'length)')
+    for mshort, qual in (('DT_String', 'String.parseTag'),
+                         ('DT_HTML', 'HTML.parseTag')):
+        fi = model.func(mshort, qual)
+        tagvar = None
+        for n in own_nodes(fi.node):
+            if isinstance(n, ast.Assign) and \
+                    isinstance(n.targets[0], ast.Tuple) and \
+                    isinstance(n.value, ast.Call) and \
+                    isinstance(n.value.func, ast.Attribute) and \
+                    n.value.func.attr == 'group' and n.value.args and \
+                    isinstance(n.value.args[0], ast.Constant) and \
+                    n.value.args[0].value == 0:
+                tagvar = n.targets[0].elts[0].id
+        if tagvar is None:
+            raise AnalysisError(f'{fi.where}: group(0) unpack not found')
+        defs = model.local_defs(fi, tagvar)
+        r.instance(fi.where, f'{tagvar} = group(0)',
+                   f'{len(defs)} definition(s)')
+        if len(defs) != 1:
+            r.finding(fi.where, f'{tagvar} reassigned', 'the tag text is '
+                      'modified after matching: the parser advances by the '
+                      'length of the modified text and re-reads (or skips) '
+                      'part of the source as literal text', node=fi.node,
+                      ctx=fi)
+        for ret in own_nodes(fi.node):
+            if isinstance(ret, ast.Return) and \
+                    isinstance(ret.value, ast.Tuple) and ret.value.elts:
+                if norm(ret.value.elts[0]) != tagvar:
+                    r.finding(fi.where, ret, 'a tag reader returns '
+                              'something other than the matched text as '
+                              'the tag', node=ret, ctx=fi)
+    # the parser advances by START + len(TAG)
+    S = model.cls('DT_String', 'String')
+    for name in ('parse', 'parse_block', 'parse_close'):
+        fi = S.methods[name]
+        adv = [n for n in own_nodes(fi.node) if isinstance(n, ast.BinOp)
+               and isinstance(n.op, ast.Add) and 'len(tag)' in norm(n)]
+        for a in adv:
+            ok = _is_end_of_match(model, fi, a)
+            r.instance(fi.where, a, 'end of match' if ok else '?')
+            if not ok:
+                r.finding(fi.where, a, 'the cursor is not advanced to the '
+                          'end of the matched tag', node=a, ctx=fi)
+    r.require_floor(5)
+    return r
+
+
+RULES = [rule_eol, rule_who_skips, rule_provenance, rule_prefix_widths,
+         rule_tag_identity]
 EXPLANATION = (
     'Regex language inclusion of the line-end pattern in [ \\t]*\\n; '
     'who-may-call query for skip_eol with origin pairing of its argument; '
